@@ -9,7 +9,7 @@ CONSTANTS
   Shape <- TraceShape
 SPECIFICATION TSpec
 CONSTRAINT HighWater
-INVARIANTS NoInternalError C01_RebuildEq C02_RefEq C04_Positions C04_Last C05_TarShape C07_Idempotent C07_SecondPassNoop C13_Tree
+INVARIANTS NoInternalError C01_RebuildEq C02_RefEq C04_Positions C04_Last C05_TarShape C06_Prefix C07_Idempotent C07_SecondPassNoop C13_Tree
 PROPERTIES C02_FailNoChange C05_AppendOnly C12_Subtree C12_NoRenameIntoSelf
 POSTCONDITION AllConsumed
 CHECK_DEADLOCK FALSE
